@@ -662,6 +662,13 @@ func (fr *Frame) cellsAssignedIn(li *loopInfo) []*ssa.Alloc {
 }
 
 func (fr *Frame) enterLoop(st *State, li *loopInfo, run *loopRun) *State {
+	// a range loop over a collection of constant length 0 never runs its body
+	if li.rangeCell != nil && li.rangeLim != nil && li.spec == nil {
+		if lim := fr.val(st, li.rangeLim); lim.K == KNormal && len(lim.C) == 1 && lim.C[0].S == "0" {
+			run.hdr = st.clone()
+			return st
+		}
+	}
 	spec := li.spec
 	pos := token.NoPos
 	if len(li.header.Instrs) > 0 {
